@@ -204,7 +204,7 @@ type Service struct {
 	workqueue      []*work                // Resource work queue.
 	workbuf        []*work                // Underlying buffer of the workqueue
 	workcond       sync.Cond              // Cond waited on by workers and signaled when work is added to workqueue
-	wg             sync.WaitGroup         // WaitGroup for all workers
+	wg             *sync.WaitGroup        // WaitGroup for all workers of the current run
 	mu             sync.Mutex             // Mutex to protect rwork map
 	ncmu           sync.RWMutex           // Mutex to protect nc from being cleared by Shutdown while in use
 	logger         logger.Logger          // Logger
@@ -687,10 +687,13 @@ func (s *Service) serve(nc Conn) error {
 	s.rwork = make(map[string]*work, s.inChannelSize)
 	s.queryTQ = timerqueue.New(s.queryEventExpire, s.queryDuration)
 
-	// Start workers
-	s.wg.Add(s.workerCount)
+	// Start workers. Each run has a WaitGroup of its own: the Serve call of
+	// the previous run may still be returning from its Wait.
+	wg := &sync.WaitGroup{}
+	s.wg = wg
+	wg.Add(s.workerCount)
 	for i := 0; i < s.workerCount; i++ {
-		go s.startWorker()
+		go s.startWorker(wg)
 	}
 
 	// Resolve the default ownership before the service counts as started, as
@@ -722,7 +725,7 @@ func (s *Service) serve(nc Conn) error {
 	close(workCh)
 
 	// Wait for all workers to be done
-	s.wg.Wait()
+	wg.Wait()
 	return nil
 }
 
